@@ -3,6 +3,7 @@
 from __future__ import annotations
 
 import ast
+import re as _re
 from typing import Dict, List, Optional, Set
 
 from ..callgraph import CallGraph, SRC_ISLA
@@ -94,6 +95,34 @@ def rule_s(ctx):
         raise Unrecognised("C22.S0", SOLVER, f"only {len(mods)} modules reachable through imports")
     n_random = n_time = n_hash = 0
     hash_inventory: Dict[str, int] = {}
+    # classes whose instances are hashed as a component of some explicit __hash__ in the closure (attribute typed by an __init__ parameter annotation)
+    hash_reachable = set()
+    for rel in mods:
+        m0 = ctx.repo.module(rel, "C22")
+        for q0, cls0 in m0.classes():
+            hf0 = m0.get(f"{q0}.__hash__")
+            init0 = m0.get(f"{q0}.__init__")
+            if hf0 is None:
+                continue
+            hashed_attrs = {x.attr for c0 in calls_in(hf0) if is_builtin_name(c0, "hash") for x in ast.walk(c0) if isinstance(x, ast.Attribute) and isinstance(x.value, ast.Name) and x.value.id == "self"}
+            ann = {}
+            if isinstance(init0, ast.FunctionDef):
+                pann = {a.arg: src(a.annotation) for a in init0.args.args + init0.args.kwonlyargs if a.annotation is not None}
+                for st in ast.walk(init0):
+                    if isinstance(st, (ast.Assign, ast.AnnAssign)):
+                        tg = st.targets[0] if isinstance(st, ast.Assign) else st.target
+                        if isinstance(tg, ast.Attribute) and isinstance(tg.value, ast.Name) and tg.value.id == "self":
+                            t_ = src(st.annotation) if isinstance(st, ast.AnnAssign) else ""
+                            if isinstance(st.value, ast.Name) and st.value.id in pann:
+                                t_ += " " + pann[st.value.id]
+                            ann[tg.attr] = t_
+            for st in cls0.body:
+                if isinstance(st, ast.AnnAssign) and isinstance(st.target, ast.Name):
+                    ann.setdefault(st.target.id, src(st.annotation))
+            for a_ in hashed_attrs:
+                for w in _re.findall(r"[A-Za-z_][A-Za-z_0-9]*", ann.get(a_, "")):
+                    hash_reachable.add(w)
+    ctx.inventory["classes_hashed_as_components"] = sorted(hash_reachable)
     for rel in mods:
         m = ctx.repo.module(rel, "C22")
         for c in calls_in(m.tree):
@@ -154,6 +183,29 @@ def rule_s(ctx):
                 hf = m.get(f"{q}.__hash__")
                 bad = [x for x in calls_in(hf) if is_builtin_name(x, "id") or (call_name(x) or "").endswith("object.__hash__")]
                 ctx.check(not bad, "S4-hash-eq", f"{rel}:{q}.__hash__", "hash does not use the object address", site(hf), "__hash__ is derived from id()/object.__hash__ (address): set iteration order differs between processes", "value-based hash")
+                # class objects and functions hash by address: `type(self)` / `self.__class__` as a hashed component (their __name__ is fine)
+                addr = _address_hashed_components(hf)
+                ctx.check(not addr, "S4-hash-eq", f"{rel}:{q}.__hash__", "no class object / function among the hashed components", site(hf),
+                          f"__hash__ hashes {addr}: a class object (or function) hashes by its address, which differs between processes, so hash(state)-based tie breaking and set iteration "
+                          "order - and with them the sequence of solutions - are not reproducible (use type(self).__name__)", "hash of names/values only")
+            elif is_dc:
+                # dataclass-generated __hash__: (eq and frozen) or unsafe_hash -> hash of ALL fields (compare=True); a Callable field hashes by address
+                deco = next(d for d in cls.decorator_list if "dataclass" in src(d))
+                kw = {k.arg: src(k.value) for k in deco.keywords} if isinstance(deco, ast.Call) else {}
+                generated = kw.get("unsafe_hash") == "True" or (kw.get("eq", "True") == "True" and kw.get("frozen") == "True")
+                if kw.get("eq") == "False" and kw.get("unsafe_hash") != "True":
+                    ctx.note("S4-hash-eq", f"{rel}:{q}", "dataclass(eq=False): identity hash", site(cls), "instances hash by address (inventory; a violation only if such instances are ordered or used as set elements)")
+                elif generated:
+                    callable_fields = [src(st.target) for st in cls.body if isinstance(st, ast.AnnAssign) and _is_callable_annotation(st.annotation) and not _field_excluded_from_hash(st.value)]
+                    if callable_fields and q not in hash_reachable:
+                        ctx.note("S4-hash-eq", f"{rel}:{q}", "generated dataclass hash includes a function field", site(cls),
+                                 f"fields {callable_fields} hash by address, but no __hash__ in the solver's modules hashes an attribute of type {q} (inventory only)")
+                        continue
+                    ctx.check(not callable_fields, "S4-hash-eq", f"{rel}:{q}", "generated dataclass hash covers value fields only", site(cls),
+                              f"the dataclass-generated __hash__ (frozen/eq) includes the field(s) {callable_fields} of function type: functions hash by address, so hash(<formula containing this "
+                              "predicate>) differs between processes and with it heap tie-breaking by hash(state) and set iteration order", "explicit value-based __hash__ or field(hash=False)")
+                else:
+                    ctx.ok("S4-hash-eq", f"{rel}:{q}", "dataclass without generated hash -> unhashable", site(cls), "eq without frozen: __hash__ is None")
         for n in ast.walk(m.tree):
             if isinstance(n, (ast.Import, ast.ImportFrom)):
                 names = [a.name for a in n.names] if isinstance(n, ast.Import) else [n.module or ""]
@@ -230,6 +282,31 @@ def _check_seed_value(ctx, call, value, construct):
             why = f"{src(value)} <- {sorted(o)[:6]}"
     ctx.check(ok, "S2-z3-seed", construct, src(call)[:60], site(call),
               f"Z3 is seeded from `{why}`, which is neither a constant nor drawn from the user-seeded `random` module: two runs with the same random.seed diverge", "seed derived from random.* / constant")
+
+
+def _address_hashed_components(hf: ast.AST):
+    out = []
+    for c in calls_in(hf):
+        if not is_builtin_name(c, "hash") or not c.args:
+            continue
+        comps = c.args[0].elts if isinstance(c.args[0], ast.Tuple) else [c.args[0]]
+        for e in comps:
+            t = src(e)
+            if (isinstance(e, ast.Call) and call_name(e) == "type" and len(e.args) == 1) or t.endswith(".__class__") or t in ("self.eval_fun", "self.evaluate"):
+                out.append(t)
+    return out
+
+
+def _is_callable_annotation(a: ast.AST) -> bool:
+    t = src(a)
+    return t.startswith("Callable") or t.startswith("typing.Callable") or t.startswith("collections.abc.Callable") or "Callable[" in t.split("|")[0]
+
+
+def _field_excluded_from_hash(v) -> bool:
+    if isinstance(v, ast.Call) and call_name(v) in ("field", "dataclasses.field"):
+        kw = {k.arg: src(k.value) for k in v.keywords}
+        return kw.get("hash") == "False" or kw.get("compare") == "False"
+    return False
 
 
 def run(ctx) -> str:
